@@ -1064,7 +1064,11 @@ class Rewriter:
             if i['action'] in {'modify', 'rm'}:
                 remove_node(i)
             elif i['action'] == 'add':
-                files[T.cast(str, i['file'])]['raw'] += T.cast(str, i['str']) + '\n'
+                raw = files[T.cast(str, i['file'])]['raw']
+                if raw and not raw.endswith('\n'):
+                    # The last line of the file is not terminated
+                    raw += '\n'
+                files[T.cast(str, i['file'])]['raw'] = raw + T.cast(str, i['str']) + '\n'
 
         # Write the files back
         for key, val in files.items():
